@@ -47,7 +47,7 @@ def dictSet : List (K × V) → K → V → List (K × V)
   | (k', v') :: rest, k, v => if k' = k then (k, v) :: rest else (k', v') :: dictSet rest k v
 
 /-- `try: del d[k] except: pass`. -/
-def dictDel (d : List (K × V)) (k : K) : List (K × V) := d.filter (fun p => p.1 ≠ k)
+def dictDel (d : List (K × V)) (k : K) : List (K × V) := d.filter (fun p => !decide (p.1 = k))
 
 def dictKeys (d : List (K × V)) : List K := d.map (·.1)
 
@@ -160,6 +160,87 @@ def exec (compile : E → Option V) (key : E → K) (eval : V → T → R) (MAX 
   | w, ev :: evs => exec compile key eval MAX CLEAR (step compile key eval MAX CLEAR w ev).1 evs
 
 end Expr
+
+/-! ### Threads: each cache operation is one atomic step (the lock), everything else is thread-local
+
+  A thread works through its own event list.  `XPathExpression(text)` is *two* critical sections with
+  the compilation in between and outside the lock, so other threads may run between the lookup and
+  the store: `pending = some v` is the program point "missed, compiled to `v`, store still to do". -/
+
+section Threads
+variable {E K V T R : Type} [DecidableEq K]
+
+def Event.expr? : Event E T → Option E
+  | .new e => some e
+  | .query e _ => some e
+  | .evalSlot .. => none
+
+structure Thread (E V T R : Type) where
+  todo : List (Event E T)
+  pending : Option V
+  slots : List V
+  obs : List (Obs R)
+
+def Thread.init (evs : List (Event E T)) : Thread E V T R := ⟨evs, none, [], []⟩
+
+/-- The head event `ev` completes holding the operations `v`. -/
+def Thread.finish (eval : V → T → R) (th : Thread E V T R) (ev : Event E T) (rest : List (Event E T)) (v : V) :
+    Thread E V T R :=
+  match ev with
+  | .new _ => { todo := rest, pending := none, slots := th.slots ++ [v], obs := th.obs ++ [.compiled] }
+  | .query _ t => { todo := rest, pending := none, slots := th.slots, obs := th.obs ++ [.result (eval v t)] }
+  | .evalSlot .. => th
+
+/-- One scheduling quantum of a thread: at most one cache operation. -/
+def tstep (compile : E → Option V) (key : E → K) (eval : V → T → R) (MAX CLEAR : Nat)
+    (c : State K V) (th : Thread E V T R) : State K V × Thread E V T R :=
+  match th.todo with
+  | [] => (c, th)
+  | ev :: rest =>
+    match ev.expr? with
+    | none =>
+      match ev with
+      | .evalSlot i t =>
+        (c, { th with todo := rest, obs := th.obs ++ [match th.slots[i]? with
+                                                      | some v => .result (eval v t)
+                                                      | none => .noSlot] })
+      | _ => (c, th)
+    | some e =>
+      match th.pending with
+      | some v => (set MAX CLEAR c (key e) v, th.finish eval ev rest v)
+      | none =>
+        match get c (key e) with
+        | (c', some v) => (c', th.finish eval ev rest v)
+        | (c', none) =>
+          match compile e with
+          | none => (c', { th with todo := rest, obs := th.obs ++ [.compileError] })
+          | some v => (c', { th with pending := some v })
+
+structure Sys (E K V T R : Type) where
+  cache : State K V
+  threads : List (Thread E V T R)
+
+def Sys.init (evss : List (List (Event E T))) : Sys E K V T R := ⟨State.empty, evss.map Thread.init⟩
+
+/-- Thread `i` gets the next quantum. -/
+def sysStep (compile : E → Option V) (key : E → K) (eval : V → T → R) (MAX CLEAR : Nat)
+    (s : Sys E K V T R) (i : Nat) : Sys E K V T R :=
+  match s.threads[i]? with
+  | none => s
+  | some th =>
+    let (c, th') := tstep compile key eval MAX CLEAR s.cache th
+    { cache := c, threads := s.threads.set i th' }
+
+/-- Run a schedule (a list of thread indices). -/
+def sysRun (compile : E → Option V) (key : E → K) (eval : V → T → R) (MAX CLEAR : Nat)
+    (s : Sys E K V T R) (sched : List Nat) : Sys E K V T R :=
+  sched.foldl (sysStep compile key eval MAX CLEAR) s
+
+/-- What is left to do: two quanta per expression event at most. -/
+def Thread.measure (th : Thread E V T R) : Nat :=
+  2 * th.todo.length - (if th.pending.isSome then 1 else 0)
+
+end Threads
 
 /-! ### The critical sections as small-step programs over an explicit lock
 
